@@ -151,6 +151,8 @@ type Engine struct {
 	program       *Program
 	fnByName      map[string]*ssa.Function
 	decided       map[uint32]bool
+	pcVars        map[uint32]bool
+	pcSeen        map[uint32]bool
 	uniq          map[uint32]uniqRes
 	tableInit     *ssa.Function
 	skipInit      map[*ssa.Function]func()
@@ -217,6 +219,29 @@ func (e *Engine) assertPC(c *term.T) {
 	}
 	e.pc = append(e.pc, c)
 	e.S.Assert(c)
+	// remember which variables the path condition mentions
+	stack := []*term.T{c}
+	for len(stack) > 0 {
+		t := stack[len(stack)-1]
+		stack = stack[:len(stack)-1]
+		if e.pcSeen[t.ID] {
+			continue
+		}
+		e.pcSeen[t.ID] = true
+		if t.Op == term.OpVar {
+			e.pcVars[t.ID] = true
+		}
+		stack = append(stack, t.Args...)
+	}
+}
+
+// freeLiteral reports whether c is a (negated) boolean variable that the path
+// condition does not mention: both outcomes are then feasible.
+func (e *Engine) freeLiteral(c *term.T) bool {
+	if c.Op == term.OpBNot {
+		c = c.Args[0]
+	}
+	return c.Op == term.OpVar && !e.pcVars[c.ID]
 }
 
 // branch decides a symbolic condition, forking when both sides are feasible.
@@ -244,6 +269,10 @@ func (e *Engine) branch(c *term.T, what string) bool {
 	var d uint64
 	if e.replaying() {
 		d = e.prefix[len(e.decisions)]
+	} else if e.freeLiteral(c) {
+		alt := append(append([]uint64(nil), e.decisions...), 0)
+		e.pending = append(e.pending, alt)
+		d = 1
 	} else {
 		rt, _ := e.S.CheckWith(c, nil)
 		e.res.FeasQueries++
@@ -365,6 +394,17 @@ func (e *Engine) uniqueValue(t *term.T) (uint64, bool) {
 	}
 	if v, ok := e.uniq[t.ID]; ok {
 		return v.v, v.ok
+	}
+	constrained := false
+	for _, v := range term.VarsOf(t) {
+		if e.pcVars[v.ID] {
+			constrained = true
+			break
+		}
+	}
+	if !constrained {
+		e.uniq[t.ID] = uniqRes{}
+		return 0, false
 	}
 	// deterministic: no decision is recorded; the answer depends only on the pc
 	probe := term.Var(fmt.Sprintf("probe!%d", t.W), t.W)
